@@ -24,9 +24,10 @@ tvars == <<S, h, l, skip>>
 Range(f) == {f[i] : i \in DOMAIN f}
 
 \* JSON arrays arrive as sequences; flag sets and signal sets are sets
-FixCall(c) == CASE c.op = "open"    -> [c EXCEPT !.fl = Range(@)]
-                [] c.op = "sigmask" -> [c EXCEPT !.set = Range(@)]
-                [] OTHER            -> c
+Fix1(c) == CASE c.op = "open"    -> [c EXCEPT !.fl = Range(@)]
+             [] c.op = "sigmask" -> [c EXCEPT !.set = Range(@)]
+             [] OTHER            -> c
+FixCall(c) == IF c.op = "kid" THEN [c EXCEPT !.c = Fix1(@)] ELSE Fix1(c)
 
 \* does the observed result o conform to the prescribed result e?
 \* (-1 in a stat result: not specified)
